@@ -304,7 +304,11 @@ def real_events(run: Run, count: int, toy_groups: list[dict[str, Any]]) -> list[
         return {"p": nat(ec.p), "a": nat(ec._a), "b": nat(ec._b), "gx": nat(ec.G[0]), "gy": nat(ec.G[1]), "n": nat(ec.n), "h": nat(ec.cofactor)}
 
     curves: list[tuple[str, Any]] = [("secp256k1", secp256k1), ("secp256r1", CURVES["secp256r1"]), ("secp112r1", CURVES["secp112r1"]),
-                                     ("secp521r1", CURVES["secp521r1"]), ("bpp160r1", CURVES["bpp160r1"])]
+                                     ("secp521r1", CURVES["secp521r1"]), ("bpp160r1", CURVES["bpp160r1"]),
+                                     # orders longer than a digest and far from a power of two (RFC 6979's T takes several HMAC blocks and the first candidate is often
+                                     # refused), and the two catalogue curves of cofactor 4 (an abscissa may be r + 2n or r + 3n)
+                                     ("secp160r1", CURVES["secp160r1"]), ("bpp256r1", CURVES["bpp256r1"]), ("bpp384r1", CURVES["bpp384r1"]),
+                                     ("secp112r2", CURVES["secp112r2"]), ("secp128r2", CURVES["secp128r2"])]
     for g in toy_groups[:3]:
         curves.append((f"toy{g['p']}_{g['a']}_{g['b']}_{g['n']}", Curve(g["p"], g["a"], g["b"], tuple(g["g"]), g["n"], g["h"], weakness_check=False)))
     start = is_libsecp256k1_serving()
@@ -318,7 +322,7 @@ def real_events(run: Run, count: int, toy_groups: list[dict[str, Any]]) -> list[
                     set_libsecp256k1_serving(serving=arm)
                 tag = f"{name}|{'bindings' if (arm and ec == secp256k1) else 'python'}"
                 for i in range(reps):
-                    hname = "sha256" if (ec == secp256k1 and i % 2 == 0) else rnd.choice(list(HFS))
+                    hname = "sha256" if (ec == secp256k1 and i % 2 == 0) else list(HFS)[i % 3]      # (every hash length on every curve: shorter than, as long as, longer than the order)
                     hf = HFS[hname]
                     q = rnd.choice([1, 2, ec.n - 1, rnd.randrange(1, ec.n), rnd.randrange(1, ec.n)])
                     h = hf(rnd.randbytes(rnd.randrange(0, 80))).digest()
@@ -366,7 +370,8 @@ def real_events(run: Run, count: int, toy_groups: list[dict[str, Any]]) -> list[
                     Q = mult(q, ec=ec)
                     Qj = {"x": nat(Q[0]), "y": nat(Q[1])}
                     cases = [(sig.r, sig.s, h), (sig.r, ec.n - sig.s, h), (sig.r, sig.s, hf(b"other").digest()), (0, sig.s, h), (sig.r, 0, h),
-                             (ec.n, sig.s, h), (sig.r, ec.n, h), (sig.r + ec.n, sig.s, h), (sig.s, sig.r, h), (ec.n - 1, ec.n - 1, h)]
+                             (ec.n, sig.s, h), (sig.r, ec.n, h), (sig.r + ec.n, sig.s, h), (sig.s, sig.r, h), (ec.n - 1, ec.n - 1, h),
+                             (sig.r, sig.s + ec.n, h), (sig.r, sig.s + 2 * ec.n, h), (sig.r + 2 * ec.n, sig.s, h)]
                     for r_, s_, hh in cases:
                         try:
                             out: Any = dsa.verify_(hh, Q, dsa.Sig(r_, s_, ec, check_validity=False), hf)
